@@ -15,7 +15,8 @@ import vcheck as V
 
 PROP = "C16"
 CHUNK = 800
-STRICT_FIRST = False   # True: "first" = least index becomes a violation instead of a note (the statement leaves it open)
+# True: "first" = least index becomes a violation instead of a note (the statement leaves it open); env for experiments
+STRICT_FIRST = os.environ.get("VERIF_C16_STRICT_FIRST", "") == "1"
 
 
 # ------------------------------------------------------------------------------------------------ behaviours
@@ -265,8 +266,12 @@ def body():
         spans = split_traces(evs)
         if len(spans) != len(behs):
             raise V.Infra("driver recorded %d traces for %d behaviours" % (len(spans), len(behs)))
-        soft, hard, kf_hits = 0, {}, {}
+        soft, hard, kf_hits, seen_v = 0, {}, {}, set()
         for v in info["violations"]:
+            key = json.dumps(v, sort_keys=True)
+            if key in seen_v:
+                continue
+            seen_v.add(key)
             if v.get("soft") and not STRICT_FIRST:
                 soft += 1
                 continue
@@ -299,12 +304,11 @@ def body():
         for t, (s, e) in enumerate(spans, 1):
             if t in bad_t:
                 continue
-            for i in range(e - 1, s, -1):
-                if evs[i]["ev"] == "q" and evs[i]["rest"] and any(a["found"] for a in evs[i]["ans"]) and \
-                        any(not a["found"] for a in evs[i]["ans"]):
-                    pick = (s, e, i)
-                    break
-            if pick:
+            # the final answers of a behaviour: the chain has stopped, no reorg is pending, the node is at rest
+            i = next((j for j in range(e - 1, s, -1) if evs[j]["ev"] == "q"), None)
+            if i is not None and evs[i]["rest"] and any(a["found"] for a in evs[i]["ans"]) and \
+                    any(not a["found"] for a in evs[i]["ans"]) and not any(x["ev"] in ("stuck", "fatal") for x in evs[s:e]):
+                pick = (s, e, i)
                 break
         selftest = "skipped (no accepted trace with a served and an unserved query)"
         if pick is None:
@@ -327,6 +331,9 @@ def body():
                 minfo = V.validate_traces("LastGERTrace.tla", "LastGERTrace.cfg", mf, sc)
                 objections = [v for v in minfo["violations"] if not v.get("soft")]
                 if minfo["consumed_ok"] and not objections:
+                    if hard:
+                        outcomes.append("%s answer ACCEPTED (not fatal here: the monitor rejected real traces in this run)" % mode)
+                        continue
                     raise V.Infra("binding self-test failed: a %s answer was accepted by the monitor" % mode)
                 outcomes.append("%s answer rejected: %s" % (mode, objections[0]["inv"] if objections else "not consumable"))
             selftest = "; ".join(outcomes)
